@@ -114,6 +114,16 @@ func (c *c08Ctx) record(layer string, input []byte) {
 	}
 }
 
+// c08n: how many inputs a phase gets. Phases that call the library synchronously from one goroutine gain nothing from the
+// race detector and get an eighth of the inputs in that pass.
+func c08n(c *c08Ctx, quick, thorough int, sequential bool) int {
+	n := pick(c.r, quick, thorough)
+	if raceEnabled && sequential {
+		n /= 8
+	}
+	return n
+}
+
 func runC08(r *ev.Run) {
 	r.Rule = "hostile bytes to every packet-facing layer. Synchronous entry points (address parsers, key parsers, peer-id text, the five demultiplexers, P2PKE Session.Deliver in every handshake state and role, Channel.Deliver with 0-3 occupied slots, DHT handlers and cache calls) are called in-process with panic capture; layers that run in library goroutines (fragswarm, mbapp tell/ask/reply paths, multiplexers, p2pkeswarm) sit on the harness's wire transport (quicswarm faces a raw quic-go client that authenticates honestly and then writes hostile frames: length > mtu, length > remaining, zero, half a header, boundary lengths, stream reset mid-frame, oversize and reset uni-streams; sshswarm faces a raw x/crypto/ssh client that authenticates honestly and then sends global requests with odd names and empty / MTU+-1 / 256 KiB payloads, channel opens and abrupt reconnects) and each input is appended to an on-disk log before it is injected, the child process being the crash detector; generators: uniform random, structure-aware field mutations of genuine packets (every header field set to boundary values, over-long / truncated varints, wrong body lengths), contradiction sequences (a first packet creating reassembly state followed by packets with the same key whose part count, index, total size or body length disagree) and bit-flips/truncations; after each batch one valid message must still get through every layer. non-trivial = input got past the layer's first length check; distinct = (layer, generator, field/value class)"
 	g := rng.New(r.Seed, "C08", fmt.Sprint(r.Batch))
@@ -125,14 +135,14 @@ func runC08(r *ev.Run) {
 			defer f.Close()
 		}
 	}
-	c08Parsers(c)
-	c08Mux(c)
-	c08Sessions(c)
-	c08Channels(c)
-	c08Kademlia(c)
-	c08Layers(c)
-	c08QUIC(c)
-	c08SSH(c)
+	for _, ph := range []struct {
+		name string
+		fn   func(*c08Ctx)
+	}{{"parsers", c08Parsers}, {"mux", c08Mux}, {"sessions", c08Sessions}, {"channels", c08Channels}, {"kademlia", c08Kademlia}, {"layers", c08Layers}, {"quic", c08QUIC}, {"ssh", c08SSH}} {
+		t0 := time.Now()
+		ph.fn(c)
+		r.Count("phase_ms_"+ph.name, time.Since(t0).Milliseconds())
+	}
 	r.Eval(c.inputs.Load())
 	r.Count("inputs", c.inputs.Load())
 }
@@ -142,7 +152,7 @@ func runC08(r *ev.Run) {
 func c08Parsers(c *c08Ctx) {
 	g := c.g.Fork()
 	kinds := buildAddrKinds()
-	n := pick(c.r, 12000, 150000)
+	n := c08n(c, 12000, 60000, true)
 	seeds := map[string][][]byte{}
 	for _, k := range kinds {
 		for i := 0; i < 8; i++ {
@@ -217,7 +227,7 @@ func c08Parsers(c *c08Ctx) {
 
 func c08Mux(c *c08Ctx) {
 	g := c.g.Fork()
-	n := pick(c.r, 16000, 400000)
+	n := c08n(c, 16000, 120000, true)
 	for _, k := range frameKinds() {
 		var seeds [][]byte
 		for i := 0; i < 8; i++ {
@@ -297,7 +307,7 @@ func sessionAt(isInit bool, state int) (*p2pke.Session, [][]byte) {
 
 func c08Sessions(c *c08Ctx) {
 	g := c.g.Fork()
-	n := pick(c.r, 5000, 60000)
+	n := c08n(c, 5000, 20000, true)
 	for i := 0; i < n; i++ {
 		isInit := g.Bool()
 		state := g.Intn(6)
@@ -336,7 +346,7 @@ func c08Sessions(c *c08Ctx) {
 
 func c08Channels(c *c08Ctx) {
 	g := c.g.Fork()
-	n := pick(c.r, 150, 1500)
+	n := c08n(c, 150, 600, false)
 	for i := 0; i < n; i++ {
 		// a pair of channels; progress them to a random point, then feed hostile bytes to one of them
 		tm := slowTimings()
@@ -398,7 +408,7 @@ func c08Channels(c *c08Ctx) {
 
 func c08Kademlia(c *c08Ctx) {
 	g := c.g.Fork()
-	n := pick(c.r, 12000, 150000)
+	n := c08n(c, 12000, 40000, true)
 	var local p2p.PeerID
 	g.Fill(local[:])
 	sizes := []int{0, 1, 7, 8, 9, 100, 255, 256, 300}
@@ -675,7 +685,7 @@ func tellProbe[A p2p.Addr](net *wireNet, d, s p2p.Swarm[A]) func() bool {
 
 func c08Layers(c *c08Ctx) {
 	g := c.g.Fork()
-	n := pick(c.r, 12000, 120000)
+	n := c08n(c, 12000, 40000, false)
 	for _, layer := range c08LayerList() {
 		net := newWireNet(200)
 		net.setPrompt(true)
